@@ -63,6 +63,19 @@ impl TraitFnAnalyzer<'_> {
     }
 }
 
+impl TraitFn {
+    /// Mirror the `#[cfg]` attributes of a function that lives inside an entraited module or impl block,
+    /// so that a function that is compiled out does not leave a dangling trait method behind.
+    pub fn mirror_cfg_attrs(mut self, fn_attrs: &[syn::Attribute]) -> Self {
+        self.attrs = fn_attrs
+            .iter()
+            .filter(|attr| attr.path().is_ident("cfg"))
+            .cloned()
+            .collect();
+        self
+    }
+}
+
 pub(super) fn detect_trait_dependency_mode<'t, 'c>(
     input_mode: &FnInputMode,
     trait_fns: &'t [TraitFn],
